@@ -2431,6 +2431,54 @@ def check_C07(ctx):
                                                                         "engine": (g or "")[:300], "spec": exp})
         if len(ctx.samples) < 3:
             ctx.sample({"line": line[:160], "engine": got})
+    # pairs of `position` commands in ONE process, the second one textually related to the first (what a GUI sends
+    # move after move, and near-prefixes): a command must set up its position whatever command came before it
+    pops, pmeta = [], []
+    def pair(first, fen2, mvs2, form2, kind):
+        pops.append("uci\t" + first)
+        pops.append("uci\t" + render_position(fen2, mvs2, form2))
+        pmeta.append((first, fen2, mvs2, form2, kind))
+    for fen, steps in pl[:ctx.size(60, 400)]:
+        mvs = [m for m, _ in steps][:rng.randint(1, 12)]
+        if not mvs:
+            continue
+        form = rng.choice(["fen", "bare"])
+        parts = fen.split(" ")
+        k = rng.randint(0, len(mvs) - 1)
+        pair(render_position(fen, mvs[:k], form), fen, mvs, form, "incremental")           # same game, more moves
+        pair(render_position(fen, mvs, form), fen, mvs[:k], form, "shorter")                # same game, fewer moves
+        for extra in ("0", str(rng.randint(1, 9))):                                         # move number with one more digit
+            n2 = parts[5] + extra
+            if 1 <= int(n2) <= 9999:
+                fen2 = " ".join(parts[:5] + [n2])
+                pair(render_position(fen, [], form), fen2, mvs, form, "counter-digit")
+                pair(render_position(fen, mvs[:k], form), fen2, mvs, form, "counter-digit-moves")
+        other = [m for m, _ in rng.choice(pl)[1]][:6]
+        pair(render_position(fen, mvs, form), fen, mvs[:k] + [], "bare" if form == "fen" else "fen", "other-form")
+    pg = run_batch(HDRV, pops, shards=1)
+    psp = run_batch(MDRV, ["sgame\t" + fen2 + ("\t" + "\t".join(mvs2) if mvs2 else "") for _, fen2, mvs2, _, _ in pmeta])
+    ctx.co["co_position_pairs"] = len(pmeta)
+    for i, ((first, fen2, mvs2, form2, kind), sp) in enumerate(zip(pmeta, psp)):
+        g = pg[2 * i + 1]
+        ctx.case("pair|" + first[:120] + "|" + render_position(fen2, mvs2, form2)[:160])
+        ctx.bump("pair:" + kind)
+        if "nomove" in (sp or ""):
+            continue
+        m = re.search(r"snap=\[(.*?)\]", g or "")
+        snap = kv(m.group(1)) if m else {}
+        sd = kv((sp or "").split(" | ")[-1]) if mvs2 else None
+        ply0 = (int(fen2.split()[5]) - 1) * 2 + (1 if fen2.split()[1] == "b" else 0)
+        if sd is None:
+            ipl, ifl, iep, _ = independent_fen_read(fen2)
+            exp = (ipl, ifl, iep, str(ply0))
+        else:
+            exp = (sd.get("B"), sd.get("f"), sd.get("ep"), str(ply0 + len(mvs2)))
+        got = (snap.get("B"), snap.get("f"), snap.get("ep"), snap.get("ply"))
+        if got != exp:
+            ctx.violation(f"position-pair:{kind}:{first}:{render_position(fen2, mvs2, form2)}",
+                          {"kind": "history", "lines": [first, render_position(fen2, mvs2, form2)],
+                           "what": f"the second of two `position` commands in one session ({kind}) did not set up its own position: placement/flags/ep/ply {got}, by the rules {exp}",
+                           "engine": (g or "")[:300]})
     # forms without a move list
     fops, fmeta = [], []
     for f in rng.sample(suite, min(len(suite), 30)) + [START_FEN]:
@@ -3098,6 +3146,11 @@ def check_C16(ctx):
         f, d, queries = item
         s0 = Session()
         try:
+            # reference without any query (not even `tostr`): the order of the generated moves and the analysis
+            s0.send(f"position {f}")
+            s0.send("perft 1")
+            fresh_perft, _ = s0.read_until(lambda l: l.startswith("total:"), 10.0)
+            fresh_perft = [l for l in fresh_perft if not l.startswith("info")]
             fresh, _ = probe(s0, f, d)
         finally:
             s0.kill()
@@ -3126,6 +3179,9 @@ def check_C16(ctx):
             s.read_until(lambda l: l == "readyok", 20.0)
             s.drain(0.02)
             after, st = snapshot_text(s)
+            # the generation ORDER must be the fresh process's too (piece lists untouched, not merely the same set)
+            if fresh_perft and after[-len(fresh_perft):] != fresh_perft:
+                after = after + ["<move order of perft 1 differs from a fresh process: " + " ".join(l.split(":")[0] for l in after[-len(fresh_perft):][:8]) + " ... vs " + " ".join(l.split(":")[0] for l in fresh_perft[:8]) + " ...>"]
             probe_after, _ = probe(s, f, d, set_position=False)
             return before, after, fresh, probe_after
         finally:
@@ -3166,6 +3222,21 @@ def check_C16(ctx):
         for q in (singles if not ctx.quick else ctx.rng.sample(singles[1:], 3) + [singles[0]]):
             items.append((f, 2, list(q)))
     ctx.bump("edge_state_sessions", len(edge))
+    # positions REACHED THROUGH A MOVE LIST (piece lists in game order, not in FEN order; stack slot > 0 never - but the
+    # lists carry history) x every kind of query on its own
+    gpl = gens.playouts(ctx.rng, [START_FEN] * 3 + [KIWI_FEN], ctx.size(6, 40), 40)
+    for gfen, steps in gpl:
+        mvs = [m for m, _ in steps]
+        if len(mvs) < 8:
+            continue
+        k = ctx.rng.randint(8, len(mvs))
+        left = steps[k - 1][1]
+        if sum(1 for c in left.split()[0] if c.isalpha()) > 28 and ctx.quick and ctx.rng.random() < 0.3:
+            continue
+        fm = ("startpos" if gfen == START_FEN else gfen) + " moves " + " ".join(mvs[:k])
+        for q in (singles if not ctx.quick else ctx.rng.sample(singles[1:], 2) + [singles[3]]):
+            items.append((fm, 2, list(q)))
+        ctx.bump("move_list_sessions")
     res = parallel_map(one, items, workers=8)
     ctx.co["co_query"] = len(items)
     for (f, d, qs), r in zip(items, res):
@@ -3623,6 +3694,16 @@ def run_exit_burst(item):
             with open(path, "w") as f:
                 f.write(text)
             p = subprocess.Popen([MAGOG], stdin=open(path, "rb"), stdout=subprocess.DEVNULL, stderr=subprocess.DEVNULL, env=env)
+        elif mode == "unreadable-wronly":
+            # no controlling input at all: every read fails with EBADF (what `nohup` from a terminal sets up)
+            p = subprocess.Popen([MAGOG], stdin=open(os.devnull, "wb"), stdout=subprocess.DEVNULL, stderr=subprocess.DEVNULL, env=env)
+        elif mode == "unreadable-dir":
+            # every read fails with EISDIR
+            fd = os.open(BUILD, os.O_RDONLY)
+            try:
+                p = subprocess.Popen([MAGOG], stdin=fd, stdout=subprocess.DEVNULL, stderr=subprocess.DEVNULL, env=env)
+            finally:
+                os.close(fd)
         else:
             p = subprocess.Popen([MAGOG], stdin=subprocess.PIPE, stdout=subprocess.DEVNULL, stderr=subprocess.DEVNULL, env=env)
             p.stdin.write(text.encode())
@@ -3650,6 +3731,8 @@ def check_C19(ctx):
              for m in ("quit", "eof", "eof-file") for single in (False, True)]
     if ctx.quick:
         burst = rng.sample(burst, 20)
+    # an input stream that cannot be read at all (persistent read error instead of a clean EOF) is no controlling input either
+    burst += [(START_FEN, "go", m, single) for m in ("unreadable-wronly", "unreadable-dir") for single in (False, True)]
     bres = parallel_map(run_exit_burst, burst, workers=6)
     ctx.co["co_exit_burst"] = len(burst)
     for (f, g, m, single), r in zip(burst, bres):
@@ -3657,6 +3740,10 @@ def check_C19(ctx):
         ctx.case(f"burst|{f}|{g}|{m}|{single}")
         ctx.bump(f"burst:{m}" + (":gomaxprocs1" if single else ""))
         if rc is None:
+            if m.startswith("unreadable"):
+                ctx.violation(f"exit-unreadable:{m}:{single}", {"kind": "history", "lines": ["<stdin is " + ("/dev/null opened write-only: every read fails with EBADF" if m.endswith("wronly") else "a directory: every read fails with EISDIR") + ">"],
+                                                                "env": "GOMAXPROCS=1" if single else "", "what": "process did not terminate within 2.5 s although its input stream cannot be read (no controlling input)"})
+                continue
             ctx.violation(f"exit-burst:{g}:{m}:{single}", {"kind": "history", "lines": [f"position {f}", g, "quit" if m == "quit" else "<end of input immediately after go>"],
                                                           "env": "GOMAXPROCS=1" if single else "", "what": f"process did not terminate within 2.5 s after {'quit' if m == 'quit' else 'end of input'} sent without any gap after `{g}`"})
     prefixes = [[], ["uci"], ["isready"], ["position startpos"], ["position startpos moves e2e4", "perft 2"], ["xyzzy"], ["position startpos", "go depth 1"], ["setoption name currmoveLogInterval value 100"],
